@@ -120,3 +120,13 @@ def _int64_min(viol, scenario):
     d = viol.detail
     return (viol.oracle in ("canonical", "single_write", "prefix", "composable", "read_back")
             and str(d.get("expected")) == str(-2 ** 63) and str(d.get("got")) == "-2")
+
+
+@predicate("incomplete_last_fastq_record_dropped")
+def _incomplete_last_record(viol, scenario):
+    """KF-C15-incomplete-last-record: a FASTQ file whose LAST record lacks its '+' line ends with three lines that do not
+    make an entry; the reader leaves such a tail out without an error at the end of the file."""
+    f = scenario.get("file") or {}
+    fault = scenario.get("fault") or {}
+    return (viol.oracle == "must_raise" and f.get("format") == "fastq" and fault.get("class") == "plus_removed"
+            and fault.get("record") == f.get("n_records", 0) - 1)
